@@ -1011,6 +1011,67 @@ GENERATORS["CauchyHead.v"] = gen_cauchyhead
 
 
 
+def gen_mainloop():
+    """Statements of the outer loop of minimize_lbfgsb translated to list operations: the failed-line-search branch (abort test, memory
+    reboot) and the first-step rule of line_search."""
+    L = ["(* GENERATED from /repo/lbfgsb/main.py and linesearch.py by harness/translate.py - do not edit *)",
+         "From Coq Require Import List String ZArith Bool Floats.PrimFloat.", "From LBFGSB Require Import Model.FloatVec.", "Import ListNotations.", ""]
+    mt = ast.parse(_src("main.py"))
+    mf = _func(mt, "minimize_lbfgsb")
+    fails = [st for st in ast.walk(mf) if isinstance(st, ast.If) and ast.unparse(st.test) == "steplength is None"]
+    if len(fails) != 1 or len(fails[0].body) != 1 or not isinstance(fails[0].body[0], ast.If):
+        raise TranslateError("failed-line-search branch not found")
+    inner = fails[0].body[0]
+    if ast.unparse(inner.test) != "len(X) == 1":
+        raise TranslateError("failed-line-search branch: unexpected abort test " + ast.unparse(inner.test))
+    L.append("Definition abort_after_failed_search (X : list vec) : bool := Nat.eqb (List.length X) 1.")
+
+    def deque_of(st, want):
+        if not (isinstance(st, ast.Assign) and len(st.targets) == 1 and ast.unparse(st.targets[0]) == want and isinstance(st.value, ast.Call)
+                and ast.unparse(st.value.func) == "Deque" and len(st.value.args) == 1 and isinstance(st.value.args[0], ast.List)):
+            raise TranslateError("memory reboot: unexpected statement " + ast.unparse(st))
+        out = []
+        for e in st.value.args[0].elts:
+            if isinstance(e, ast.Subscript) and isinstance(e.value, ast.Name) and e.value.id in ("X", "G") and ast.unparse(e.slice) == "-1":
+                out.append(f"List.last {e.value.id} []")
+            elif isinstance(e, ast.Name) and e.id in ("x", "grad"):
+                out.append({"x": "x", "grad": "g"}[e.id])
+            else:
+                raise TranslateError("memory reboot: unexpected element " + ast.unparse(e))
+        return "[" + "; ".join(out) + "]"
+    asg = [st for st in inner.orelse if isinstance(st, ast.Assign) and ast.unparse(st.targets[0]) in ("X", "G", "mats")]
+    if [ast.unparse(st.targets[0]) for st in asg] != ["X", "G", "mats"] or ast.unparse(asg[2].value) != "LBFGSB_MATRICES(n)":
+        raise TranslateError("memory reboot: expected X, G, mats assignments, found " + "; ".join(ast.unparse(st) for st in inner.orelse))
+    L.append(f"Definition reboot_history (x g : vec) (X G : list vec) : list vec * list vec := ({deque_of(asg[0], 'X')}, {deque_of(asg[1], 'G')}).")
+    # first-step rule of line_search
+    lt = ast.parse(_src("linesearch.py"))
+    lf = _func(lt, "line_search")
+    first = [st for st in lf.body if isinstance(st, ast.If) and ast.unparse(st.test) == "above_iter == 0 and (not is_boxed)"]
+    if len(first) != 1 or len(first[0].body) != 1 or len(first[0].orelse) != 1:
+        raise TranslateError("line_search: first-step rule not found")
+    a1, a2 = first[0].body[0], first[0].orelse[0]
+    if not (isinstance(a1, ast.Assign) and isinstance(a2, ast.Assign) and ast.unparse(a1.targets[0]) == ast.unparse(a2.targets[0]) == "steplength_0"):
+        raise TranslateError("line_search: first-step rule of unexpected shape")
+
+    class FE(FloatExpr):
+        def tr(self, n):
+            if isinstance(n, ast.Call) and ast.unparse(n.func) == "np.sqrt" and len(n.args) == 1:
+                return f"(PrimFloat.sqrt {self.tr(n.args[0])})"
+            if isinstance(n, ast.Call) and isinstance(n.func, ast.Attribute) and n.func.attr == "dot" and len(n.args) == 1 \
+                    and isinstance(n.func.value, ast.Name) and isinstance(n.args[0], ast.Name):
+                return f"(vdot {n.func.value.id} {n.args[0].id})"
+            return super().tr(n)
+    fe = FE({"max_steplength": "stpmax"})
+    L.append("(* Python's min(a, b): the first argument unless the second compares smaller *)")
+    L.append("Definition pymin (a b : float) : float := if PrimFloat.ltb b a then b else a.")
+    L.append(f"Definition first_step (vdot : vec -> vec -> float) (iter0 is_boxed : bool) (d : vec) (stpmax : float) : float :=\n"
+             f"  if iter0 && negb is_boxed then {fe.tr(a1.value)} else {fe.tr(a2.value)}.")
+    return "\n".join(L) + "\n"
+
+
+GENERATORS["MainLoop.v"] = gen_mainloop
+
+
 def generate():
     """Write the generated files. Returns a list of error strings (empty = ok)."""
     os.makedirs(OUT, exist_ok=True)
